@@ -9,10 +9,16 @@
    (debug logging off, the remaining CLIENT_CLOSED subscribers writable) appends to the write log exactly one whole
    CLIENT_CLOSED frame describing it for each remaining eligible subscriber of CLIENT_CLOSED and nothing else,
    and leaves it unregistered, closed, in no subscriber list and not a logger; a second removal is a no-op
-   (C07_second_removal_noop).  Failing-send cases at stream level: correspondence and spec oracle. *)
+   (C07_second_removal_noop).
+   UNCONDITIONALLY (Proofs/ClosedOnce.v): C07_closed_at_most_once - for EVERY configuration, budget and history
+   (DISCONNECT, EOF, reset, truncated frame, refusal at connect, failing sends, any nesting; Ok or Crash), to any
+   connection at most ONE CLIENT_CLOSED about a given connection id is ever written; C07_closed_reaches_healthy -
+   when a registered module is removed, every subscriber of CLIENT_CLOSED that can accept data and whose own sends do
+   not fail gets exactly one whole CLIENT_CLOSED frame describing it (uid, pid, module id, logger, unique, name as
+   they were), whatever else fails, and the module ends unregistered and closed. *)
 From Coq Require Import ZArith List Bool Lia.
 From Mgr Require Import Gen.MgrDefs Model.Manager Proofs.ListLemmas Proofs.RegInv Proofs.Frame Proofs.RegTraverse Proofs.RegTop
-                        Proofs.Connect Proofs.StepInv Proofs.C05Inv Proofs.Exact Proofs.DepartExact Proofs.LoopExact Proofs.OnlyRecipients Proofs.HealthyServed.
+                        Proofs.Connect Proofs.StepInv Proofs.C05Inv Proofs.Exact Proofs.DepartExact Proofs.LoopExact Proofs.Hoare Proofs.OnlyRecipients Proofs.HealthyServed Proofs.ClosedOnce.
 Import ListNotations.
 Open Scope Z_scope.
 
@@ -117,6 +123,28 @@ Theorem C07_inflight_delivery_unconditional : forall cfg fuel es u s (k : nat) h
   exists suf, out s' = out s ++ suf /\ served_once h p c suf /\ still_healthy c s s'.
 Proof. exact healthy_recipient_served_reachable. Qed.
 
+(* ---- exactly one CLIENT_CLOSED, unconditionally ---- *)
+Theorem C07_closed_at_most_once : forall cfg FUEL es g c,
+  (length (filter (is_cc c) (proj g (out (st (run cfg FUEL es))))) <= 1)%nat.
+Proof. exact closed_at_most_once. Qed.
+
+Theorem C07_closed_reaches_healthy : forall cfg fuel es u s (k : nat) c g s',
+  run cfg fuel es = Ok u s -> m_reg (find_mod c (mods s)) = true ->
+  In g (snapshot s MT_CLIENT_CLOSED) -> g <> c -> zmem g (wl s) = true -> flookup g (faults s) = None ->
+  remove_module cfg k c s = Ok tt s' ->
+  exists suf, out s' = out s ++ suf /\
+    closed_once c (client_payload true (find_mod c (mods s))) g suf /\ still_healthy g s s' /\
+    m_reg (find_mod c (mods s')) = false /\ m_closed (find_mod c (mods s')) = true.
+Proof.
+  intros cfg fuel es u s k c g s'. exact (departure_reaches_healthy_reachable cfg fuel es u s k c g s').
+Qed.
+
+(* is_cc c: a CLIENT_CLOSED payload about connection id c *)
+Theorem C07_is_cc_meaning : forall c uid pid mid lg uq nm,
+  is_cc c (OPay (PClient true uid pid mid lg uq nm)) = (uid =? c) /\
+  is_cc c (OPay (PClient false uid pid mid lg uq nm)) = false.
+Proof. intros. split; reflexivity. Qed.
+
 (* non-vacuity: a subscriber whose write fails during a delivery is gone afterwards, the other
    subscriber still got the message, and one CLIENT_CLOSED was published (to the monitor, conn 3) *)
 Definition Hs (t : Z) : hdr := mkHdr t 1 0 0 0 0 4 7.
@@ -133,3 +161,4 @@ Example C07_ex :
   | Crash _ _ => ([], [], 0%nat, 0%nat)
   end = ([true; false; true; true; true], [2], 1%nat, 1%nat).
 Proof. vm_compute. reflexivity. Qed.
+Definition C07_closed_once_ex := closed_once_ex.
